@@ -1,6 +1,7 @@
 import Uhppote.Model.Order
 import Uhppote.Spec.Order
 import Uhppote.Gen.Order
+import Uhppote.Gen.Source
 /-! # C16 — date and time comparisons form a strict total order consistent with the calendar
 All statements are for ALL integer field values (so certainly for years 0001..9999, months, days,
 hours 0..24, minutes 0..59). -/
@@ -105,5 +106,14 @@ example : dateBefore ⟨2025, 1, 1⟩ ⟨2024, 12, 31⟩ = false := by decide
 example : hhmmBefore ⟨8, 30⟩ ⟨24, 0⟩ = true := by decide
 example : dateTimeBefore 1999 2000 = true ∧ dateTimeBefore 1000 1999 = false := by decide
 example : segmentRejected ⟨8, 30⟩ ⟨8, 29⟩ = true ∧ segmentRejected ⟨8, 30⟩ ⟨8, 30⟩ = false := by decide
+
+/-- no comparison keeps anything between calls: the package-level variables of the four packages (regenerated) are these ten - the
+    codec's patterns and kind table, the two card-format patterns, the bind-port mutex, `NOTIMEOUT` and three error
+    values - every one of them initialised when its package is loaded. A `sync.Once`, a lazily filled map or a cache
+    would have to appear here. -/
+theorem C16_package_state : Gen.Source.packageVars = ["encoding/UTO311-L0x/UT0311-L0x.go:var re", "encoding/UTO311-L0x/UT0311-L0x.go:var tBool,tByte,tUint16,…",
+    "encoding/UTO311-L0x/UT0311-L0x.go:var vre", "types/card-format.go:var w26", "types/card-format.go:var wAny",
+    "uhppote/UT0311.go:var NOTIMEOUT", "uhppote/UT0311.go:var guard", "uhppote/errors.go:var ErrIncorrectController",
+    "uhppote/errors.go:var ErrInvalidCard", "uhppote/errors.go:var ErrInvalidListenerAddress"] := by decide
 
 end Uhppote.Props.C16
